@@ -163,3 +163,5 @@ def run(rep, repo, tier):
     c14_life.run_life(rep, repo, tier)
     import c14_ident
     c14_ident.run_ext(rep, repo, tier)
+    import c14_sstr
+    c14_sstr.run_ext(rep, repo, tier)
